@@ -175,6 +175,23 @@ Theorem C18_monitor_children_accepts_model : forall g t fin draw g' rel canc,
 Proof. exact c18_children_check_accepts_model. Qed.
 Print Assumptions C18_monitor_children_accepts_model.
 
+(* ---- bridges: the hand-written documented forms (used by the monitors) are what the TRANSLATED source
+   computes; an edit of the source (any/all, a state tuple) breaks these ---- *)
+Theorem C18_bridge_ready : forall g t,
+  is_ready_to_run (tg_terminal g t) (map (tg_complete g) (tg_parents g t)) (tg_state g t) = doc_ready g t.
+Proof. exact doc_ready_bridge. Qed.
+Print Assumptions C18_bridge_ready.
+Theorem C18_bridge_releasable : forall g, tg_releasable g = doc_releasable g.
+Proof. exact doc_releasable_bridge. Qed.
+Print Assumptions C18_bridge_releasable.
+Theorem C18_monitor_releasable_accepts_model : forall g, tg_ok g = true -> c18_releasable_check (g, tg_releasable g) = true.
+Proof. exact c18_releasable_check_accepts_model. Qed.
+Print Assumptions C18_monitor_releasable_accepts_model.
+Theorem C18_monitor_children_err_accepts_model : forall g t fin draw g',
+  notify_completion g t fin draw = (g', Err 3) -> tg_conditional g t = false -> c18_children_err_check (g, t) = true.
+Proof. exact c18_children_err_check_accepts_model. Qed.
+Print Assumptions C18_monitor_children_err_accepts_model.
+
 (* ---- non-vacuity: A (RELEASED, release 3) -> B (VIRTUAL), time 5: A is offered, B is not ---- *)
 Definition c18_g : tgraph :=
   mkTG [(1, [2]); (2, [])]
